@@ -361,8 +361,25 @@ func (propC16) Run(scI interface{}) *Outcome {
 	transferred := true
 	switch sc.Via {
 	case "bytes":
+		var other *twig.Engine
+		if sc.WorldSeed%4 == 1 {
+			// the compiled OBJECT itself is handed to an unrelated engine first (other callbacks, other globals,
+			// none of the partials) and then to the target: "registering the result on any engine"
+			other = twig.New()
+			installSpies(other, &spyHub{per: []*Spies{newSpies()}})
+			other.AddGlobal("g1", "OTHER")
+			other.SetDebug(true)
+			o.Probes["compiled_object_registered_on_two_engines"]++
+		}
 		for _, s := range sers {
 			if s.name == "\x00raw" {
+				continue
+			}
+			if other != nil {
+				other.RegisterCompiledTemplate(s.c)
+				if err := B.RegisterCompiledTemplate(s.c); err != nil {
+					return fail("RegisterCompiledTemplate failed on a compiled template", fmt.Sprintf("%s: %v", s.name, err))
+				}
 				continue
 			}
 			if err := B.LoadFromCompiledData(s.data); err != nil {
@@ -545,6 +562,28 @@ func (propC16) Run(scI interface{}) *Outcome {
 				}
 			}
 			o.Probes["second_generation"]++
+			if sc.Via != "bytes" && !faulted {
+				// … and through the disk: saving the edited template again must replace the stored form
+				cl2 := twig.NewCompiledLoader("cache")
+				if err := cl2.SaveCompiled(A, mainName); err != nil {
+					if !faulted {
+						return fail("SaveCompiled failed without a disk fault", fmt.Sprintf("second generation of %s: %v", mainName, err))
+					}
+				} else if !faulted {
+					fb, ok := w.FSRead("cache/" + mainName + ".twig.compiled")
+					if !ok {
+						return fail("SaveCompiled reported success but wrote no file", mainName)
+					}
+					back, err := twig.DeserializeCompiledTemplate(fb)
+					if err != nil {
+						return fail("file written by the compiled loader does not deserialise", fmt.Sprintf("second generation of %s: %v", mainName, err))
+					}
+					if back.Source != src2 {
+						return fail("SaveCompiled reported success but the stored form still holds an earlier source", fmt.Sprintf("%s: stored %q, current %q", mainName, tail(back.Source, 80), tail(src2, 80)))
+					}
+					o.Probes["second_generation_on_disk"]++
+				}
+			}
 		}
 	}
 	o.Sample = map[string]interface{}{"via": sc.Via, "templates": names, "raws": len(sc.Raws), "clock_start_s": sc.ClockStart, "faults": sc.Faults, "main": tail(srcs[mainName], 300), "result": a.Class}
